@@ -189,7 +189,8 @@ class C18(Property):
                   "inputs only) for every provenance relation, availability map and inputs; the step from tokens to re-executed jobs is validated on real "
                   "recovery runs, not proved")
     level_note = "Lean kernel, axioms within {propext, Classical.choice, Quot.sound}; the job pipeline and GraphMapper are runtime layers (K)"
-    quick_budget_s = 420
+    quick_budget_s = 2400        # room for one confirmation re-run of a timed-out case (5x its bound), see recov.run_confirmed
+    thorough_budget_s = 6000
     min_nontrivial = 10
 
     def explore(self, ctx: Ctx) -> None:
@@ -219,7 +220,7 @@ class C18(Property):
         graphs = corpus + [gen_graph(rng, k) for k in range(n)]
         lines, meta = [], []
         results_for_avail = []
-        for status_case in pmap(provk.run_case, graphs, timeout=300, workers=8):
+        for status_case in recov.run_confirmed(ctx, provk.run_case, graphs, timeout=300, workers=8, inner_default=120):
             case, status, real = status_case
             if status == "ok" and real.get("outcome") == "ok":
                 results_for_avail.append(status_case)
@@ -286,7 +287,7 @@ class C18(Property):
                 ctx.disagree("build_graph vs model", f"graph {case['idx']}: real `{exp}`, model `{g}`", {"graph": case})
         # ---- end to end -------------------------------------------------------------------------
         rcases = _recov_cases(rng, quick)
-        for case, status, r in recov.run_cases(rcases, timeout=300, workers=6):
+        for case, status, r in recov.run_cases(rcases, timeout=300, workers=6, ctx=ctx):
             if status != "ok":
                 ctx.fail("run:" + status, f"{case['name']}: {str(r)[:300]}", {"recovery": case})
                 continue
